@@ -342,7 +342,7 @@ REGISTRY = {
     "C14": {"run": c14, "level": "proof", "floors": {"cts.layout": 36, "buf.def": 12, "buf.init": 2, "ofb.one-backend": 1, "ofb.same-function": 2, "alias.wrapper": 8, "keyinit.blanket": 18}},
     "C15": {"run": c15, "level": "proof", "floors": {"dep.kind": 24, "ctr.ks.data-independent": 6}},
     "C16": {"run": c16, "level": "proof", "floors": {"own.fields-by-value": 50, "own.clone-fieldwise": 46, "own.no-std": 18, "own.no-unsafe": 18, "own.calls-allow-listed": 18, "control.own": 5}},
-    "C17": {"run": c17, "level": "other", "floors": {"leak.debug-opaque": 54, "leak.alias-debug-opaque": 16, "leak.zeroize-field": 24, "control.leak": 5}},
+    "C17": {"run": c17, "level": "other", "floors": {"leak.debug-opaque": 54, "leak.alias-debug-opaque": 16, "leak.zeroize-field": 20, "control.leak": 5}},
 }
 for _k, _v in REGISTRY.items():
     _v.setdefault("explanation", PROOF_NOTE)
